@@ -37,6 +37,8 @@ type SingleFlightItem struct {
 	statusCode int
 	// err is non nil if the leader produced an error while doing the work
 	err error
+	// leaderCanceled is set when err was produced while the leader's own context was done
+	leaderCanceled bool
 	// sizeHint keeps track of the last 50 responses per fetchKey to give an estimate on the size
 	// this gives a leader a hint on how much space it should pre-allocate for buffers when fetching
 	// this reduces memory usage
